@@ -23,6 +23,7 @@ CHECKS['C15'] = checks.check_C15
 CHECKS['C12'] = checks.check_C12
 CHECKS['C16'] = checks.check_C16
 CHECKS['C11'] = checks.check_C11
+CHECKS['C17'] = checks.check_C17
 
 
 def replay(pid: str, path: str) -> int:
